@@ -211,6 +211,8 @@ define_payload!(P100A1D, 100, 1, true);
 define_payload!(P500A2D, 500, 2, true);
 define_payload!(P1000A16D, 1000, 16, true);
 define_payload!(P2000A8D, 2000, 8, true);
+define_payload!(P40A32D, 40, 32, true);
+define_payload!(P64A64D, 64, 64, true);
 
 /// A payload whose destructor panics on demand (after counting the drop).
 pub struct FaultyDrop {
